@@ -19,8 +19,20 @@
 (* (tcpJob.ednsWriter, middleware/edns serveWire): slot[c] is the client   *)
 (* cookie left in the slab the next acquire of class c hands out (0 = the  *)
 (* slot is zeroed).  With one token per class that slab is THE slab.       *)
+(*                                                                         *)
+(* The client may stop reading (Stall): its receive window closes, the      *)
+(* kernel buffers fill, and a write the connection makes with replies in    *)
+(* hand -- the flush inside stage() that a reply displaces, the flush       *)
+(* before a token wait, a huge reply written on its own -- runs into the    *)
+(* write bound (tcpWriteWait) with only part of the drain buffer on the     *)
+(* wire.  tcpStream.flush records that error as the stream's sticky error   *)
+(* (TimeoutSticky): every later stage() refuses, the loop ends at its next  *)
+(* flush, the client sees a prefix of its replies and then the end of the   *)
+(* stream.  TimeoutSticky = FALSE is the flush that forgets a deadline      *)
+(* error: the displaced reply is dropped, what was not written is           *)
+(* discarded, and the connection keeps staging the following replies.       *)
 (***************************************************************************)
-EXTENDS Naturals, Sequences, FiniteSets, TLC, TcpFrames
+EXTENDS Integers, Sequences, FiniteSets, TLC, TcpFrames
 
 CONSTANTS
   NF,        \* frames the client pipelines in one behaviour
@@ -31,8 +43,10 @@ CONSTANTS
   Opts,         \* EDNS shapes explored for queries that run the chain (subset of OptKinds)
   FlushOnWait,  \* acquire() flushes staged replies before it parks for a token (FALSE = mutant)
   FlushBeforeDirect, \* stage() flushes what is staged before it writes a huge reply on its own (FALSE = mutant)
-  ResetSlot     \* serveWire's deferred `*rw = ResponseWriter{}` zeroes the whole slot
+  ResetSlot,    \* serveWire's deferred `*rw = ResponseWriter{}` zeroes the whole slot
                 \* (FALSE = mutant: cookieRaw / hasCookieRaw survive the request)
+  Stall,        \* the client may stop reading for a while (a write can then hit its bound)
+  TimeoutSticky \* flush() keeps a write-deadline error as the stream's sticky error (FALSE = mutant)
 
 ASSUME Sizes \subseteq SizeClasses /\ Opts \subseteq OptKinds
 
@@ -48,9 +62,12 @@ VARIABLES
   drain, wireOut, werr,
   slot,      \* per class: the client cookie sitting in the job's edns writer slot (0 = zeroed)
   hist,      \* ghost: frames served so far
-  cgone      \* the client has closed its end
+  cgone,     \* the client has closed its end
+  cstall,    \* the client is not reading: the buffers towards it are full
+  cut        \* ghost: how many frames had left when a write of this connection first failed (-1 = none has);
+             \* a failed write may have torn a frame, so the stream must end there
 
-vars == <<nsent, net, fill, hp, pc, job, tok, envHeld, drain, wireOut, werr, slot, hist, cgone>>
+vars == <<nsent, net, fill, hp, pc, job, tok, envHeld, drain, wireOut, werr, cut, slot, hist, cgone, cstall>>
 
 EnvCk == NF + 1      \* the cookie of some other connection's client
 
@@ -60,6 +77,7 @@ Init ==
   /\ tok = [c \in Classes |-> Cap(c)] /\ envHeld = [c \in Classes |-> 0]
   /\ drain = <<>> /\ wireOut = <<>> /\ werr = FALSE /\ hist = <<>> /\ cgone = FALSE
   /\ slot = [c \in Classes |-> 0]
+  /\ cstall = FALSE /\ cut = -1
 
 ---------------------------------------------------------------------------
 (* client and network *)
@@ -67,11 +85,19 @@ ClientWrite(cls, kind, sz, opt) ==
   /\ nsent < NF /\ ~cgone
   /\ nsent' = nsent + 1
   /\ net' = Append(net, [id |-> nsent + 1, cls |-> cls, kind |-> kind, sz |-> sz, opt |-> opt, ck |-> 0])
-  /\ UNCHANGED <<fill, hp, pc, job, tok, envHeld, drain, wireOut, werr, slot, hist, cgone>>
+  /\ UNCHANGED <<fill, hp, pc, job, tok, envHeld, drain, wireOut, werr, cut, slot, hist, cgone, cstall>>
 
 ClientClose ==
   /\ ~cgone /\ cgone' = TRUE
-  /\ UNCHANGED <<nsent, net, fill, hp, pc, job, tok, envHeld, drain, wireOut, werr, slot, hist>>
+  /\ UNCHANGED <<nsent, net, fill, hp, pc, job, tok, envHeld, drain, wireOut, werr, cut, slot, hist, cstall>>
+
+ClientStall ==
+  /\ Stall /\ ~cstall /\ ~cgone /\ cstall' = TRUE
+  /\ UNCHANGED <<nsent, net, fill, hp, pc, job, tok, envHeld, drain, wireOut, werr, cut, slot, hist, cgone>>
+
+ClientResume ==
+  /\ cstall /\ cstall' = FALSE
+  /\ UNCHANGED <<nsent, net, fill, hp, pc, job, tok, envHeld, drain, wireOut, werr, cut, slot, hist, cgone>>
 
 LastWhole == IF fill = <<>> THEN TRUE ELSE fill[Len(fill)].whole
 
@@ -82,17 +108,17 @@ Deliver(whole) ==
   /\ LastWhole
   /\ fill' = Append(fill, [f |-> Head(net), whole |-> whole])
   /\ net' = Tail(net) /\ hp' = FALSE
-  /\ UNCHANGED <<nsent, pc, job, tok, envHeld, drain, wireOut, werr, slot, hist, cgone>>
+  /\ UNCHANGED <<nsent, pc, job, tok, envHeld, drain, wireOut, werr, cut, slot, hist, cgone, cstall>>
 
 DeliverHalfPrefix ==
   /\ net # <<>> /\ ~hp /\ pc # "closed" /\ LastWhole
   /\ hp' = TRUE
-  /\ UNCHANGED <<nsent, net, fill, pc, job, tok, envHeld, drain, wireOut, werr, slot, hist, cgone>>
+  /\ UNCHANGED <<nsent, net, fill, pc, job, tok, envHeld, drain, wireOut, werr, cut, slot, hist, cgone, cstall>>
 
 DeliverRest ==
   /\ ~LastWhole /\ pc # "closed"
   /\ fill' = [fill EXCEPT ![Len(fill)].whole = TRUE]
-  /\ UNCHANGED <<nsent, net, hp, pc, job, tok, envHeld, drain, wireOut, werr, slot, hist, cgone>>
+  /\ UNCHANGED <<nsent, net, hp, pc, job, tok, envHeld, drain, wireOut, werr, cut, slot, hist, cgone, cstall>>
 
 (* the other connections of the engine; a tenant served from the slab may   *)
 (* have carried a cookie, which stays behind only when the slot is not     *)
@@ -100,32 +126,41 @@ DeliverRest ==
 EnvTake(c) ==
   /\ tok[c] > 0
   /\ tok' = [tok EXCEPT ![c] = @ - 1] /\ envHeld' = [envHeld EXCEPT ![c] = @ + 1]
-  /\ UNCHANGED <<nsent, net, fill, hp, pc, job, drain, wireOut, werr, slot, hist, cgone>>
+  /\ UNCHANGED <<nsent, net, fill, hp, pc, job, drain, wireOut, werr, cut, slot, hist, cgone, cstall>>
 EnvGive(c) ==
   /\ envHeld[c] > 0
   /\ tok' = [tok EXCEPT ![c] = @ + 1] /\ envHeld' = [envHeld EXCEPT ![c] = @ - 1]
   /\ \E k \in (IF ResetSlot THEN {0} ELSE {slot[c], EnvCk}) : slot' = [slot EXCEPT ![c] = k]
-  /\ UNCHANGED <<nsent, net, fill, hp, pc, job, drain, wireOut, werr, hist, cgone>>
+  /\ UNCHANGED <<nsent, net, fill, hp, pc, job, drain, wireOut, werr, cut, hist, cgone, cstall>>
 
 ---------------------------------------------------------------------------
 (* the connection goroutine *)
 Ids(s) == [i \in 1..Len(s) |-> s[i].id]
 
 (* tcpStream.flush of `dr` on top of `wo`: everything staged leaves in one  *)
-(* write, or the write fails (peer gone) and the error is sticky.          *)
-(* The set of possible <<wireOut', werr'>>.                                *)
+(* write, or the write fails (peer gone) and the error is sticky, or -- the *)
+(* client is not reading -- the write runs into its bound with the first k  *)
+(* staged frames on the wire (a frame cut by the bound is not a whole frame *)
+(* and is followed by nothing only if the stream ends here); held = 0       *)
+(* either way.  The set of possible <<wireOut', werr', flush returned an    *)
+(* error>>.                                                                 *)
 FlushOutcomes(dr, wo, we) ==
-  IF we THEN {<<wo, TRUE>>}
-  ELSE IF dr = <<>> THEN {<<wo, FALSE>>}
-  ELSE {<<wo \o dr, FALSE>>} \cup (IF cgone THEN {<<wo, TRUE>>} ELSE {})
+  IF we THEN {<<wo, TRUE, TRUE>>}
+  ELSE IF dr = <<>> THEN {<<wo, FALSE, FALSE>>}
+  ELSE {<<wo \o dr, FALSE, FALSE>>}
+       \cup (IF cgone THEN {<<wo, TRUE, TRUE>>} ELSE {})
+       \cup (IF cstall THEN {<<wo \o SubSeq(dr, 1, k), TimeoutSticky, TRUE>> : k \in 0..(Len(dr) - 1)} ELSE {})
 
-(* dnsclient.WriteFrameFrom of one reply straight to the connection *)
+(* dnsclient.WriteFrameFrom of one reply straight to the connection; stage() *)
+(* records any error of it (a deadline error included) as the sticky error  *)
 DirectOutcomes(r, wo) ==
-  {<<Append(wo, r), FALSE>>} \cup (IF cgone THEN {<<wo, TRUE>>} ELSE {})
+  {<<Append(wo, r), FALSE>>} \cup (IF cgone \/ cstall THEN {<<wo, TRUE>>} ELSE {})
+
+CutAt(failed, wo) == IF failed /\ cut = -1 THEN Len(wo) ELSE cut
 
 Flush ==      \* flush() at a point that stages nothing afterwards
   \E o \in FlushOutcomes(drain, wireOut, werr) :
-    /\ wireOut' = o[1] /\ werr' = o[2] /\ drain' = <<>>
+    /\ wireOut' = o[1] /\ werr' = o[2] /\ drain' = <<>> /\ cut' = CutAt(o[3], o[1])
 
 Released == IF job = "none" THEN tok ELSE [tok EXCEPT ![job] = @ + 1]
 
@@ -133,24 +168,25 @@ Top ==                 \* loop head: a whole prefix in hand keeps the burst goin
   /\ pc = "top"
   /\ IF fill # <<>>
        THEN /\ pc' = "prefix"
-            /\ UNCHANGED <<job, tok, drain, wireOut, werr>>
+            /\ UNCHANGED <<job, tok, drain, wireOut, werr, cut>>
        ELSE \* about to block: release the slab, flush the replies, then wait
             /\ tok' = Released
             /\ job' = "none"
-            /\ Flush
-            /\ pc' = IF werr' THEN "exit" ELSE "blocked"
-  /\ UNCHANGED <<nsent, net, fill, hp, envHeld, slot, hist, cgone>>
+            /\ \E o \in FlushOutcomes(drain, wireOut, werr) :      \* beforeRead: an error of the flush ends the loop
+                 /\ wireOut' = o[1] /\ werr' = o[2] /\ drain' = <<>> /\ cut' = CutAt(o[3], o[1])
+                 /\ pc' = IF o[3] THEN "exit" ELSE "blocked"
+  /\ UNCHANGED <<nsent, net, fill, hp, envHeld, slot, hist, cgone, cstall>>
 
 Blocked ==
   /\ pc = "blocked"
   /\ \/ fill # <<>> /\ pc' = "prefix"
      \/ fill = <<>> /\ (cgone \/ net = <<>>) /\ pc' = "exit"     \* EOF or idle timeout
-  /\ UNCHANGED <<nsent, net, fill, hp, job, tok, envHeld, drain, wireOut, werr, slot, hist, cgone>>
+  /\ UNCHANGED <<nsent, net, fill, hp, job, tok, envHeld, drain, wireOut, werr, cut, slot, hist, cgone, cstall>>
 
 Prefix ==
   /\ pc = "prefix"
   /\ pc' = IF Head(fill).f.kind = "short" THEN "exit" ELSE "class"
-  /\ UNCHANGED <<nsent, net, fill, hp, job, tok, envHeld, drain, wireOut, werr, slot, hist, cgone>>
+  /\ UNCHANGED <<nsent, net, fill, hp, job, tok, envHeld, drain, wireOut, werr, cut, slot, hist, cgone, cstall>>
 
 ClassSwap ==           \* the class belongs to the frame, both ways
   /\ pc = "class"
@@ -158,32 +194,32 @@ ClassSwap ==           \* the class belongs to the frame, both ways
        THEN tok' = [tok EXCEPT ![job] = @ + 1] /\ job' = "none"
        ELSE UNCHANGED <<tok, job>>
   /\ pc' = "acquire"
-  /\ UNCHANGED <<nsent, net, fill, hp, envHeld, drain, wireOut, werr, slot, hist, cgone>>
+  /\ UNCHANGED <<nsent, net, fill, hp, envHeld, drain, wireOut, werr, cut, slot, hist, cgone, cstall>>
 
 Acquire ==
   /\ pc = "acquire"
   /\ LET c == Head(fill).f.cls IN
-     IF job # "none" THEN pc' = "body" /\ UNCHANGED <<job, tok, drain, wireOut, werr>>
+     IF job # "none" THEN pc' = "body" /\ UNCHANGED <<job, tok, drain, wireOut, werr, cut>>
      ELSE IF tok[c] > 0
        THEN /\ tok' = [tok EXCEPT ![c] = @ - 1] /\ job' = c /\ pc' = "body"
-            /\ UNCHANGED <<drain, wireOut, werr>>
+            /\ UNCHANGED <<drain, wireOut, werr, cut>>
        ELSE \* parks for a token: staged replies leave first
-            /\ IF FlushOnWait THEN Flush ELSE UNCHANGED <<drain, wireOut, werr>>
+            /\ IF FlushOnWait THEN Flush ELSE UNCHANGED <<drain, wireOut, werr, cut>>
             /\ pc' = "wait" /\ UNCHANGED <<job, tok>>
-  /\ UNCHANGED <<nsent, net, fill, hp, envHeld, slot, hist, cgone>>
+  /\ UNCHANGED <<nsent, net, fill, hp, envHeld, slot, hist, cgone, cstall>>
 
 Wait ==
   /\ pc = "wait"
   /\ LET c == Head(fill).f.cls IN
      \/ tok[c] > 0 /\ tok' = [tok EXCEPT ![c] = @ - 1] /\ job' = c /\ pc' = "body"
      \/ tok[c] = 0 /\ pc' = "exit" /\ UNCHANGED <<tok, job>>      \* the query's budget ran out
-  /\ UNCHANGED <<nsent, net, fill, hp, envHeld, drain, wireOut, werr, slot, hist, cgone>>
+  /\ UNCHANGED <<nsent, net, fill, hp, envHeld, drain, wireOut, werr, cut, slot, hist, cgone, cstall>>
 
 Body ==                \* blocks for the rest of the body with the replies still staged (by design)
   /\ pc = "body"
   /\ \/ Head(fill).whole /\ pc' = "serve"
      \/ ~Head(fill).whole /\ (cgone \/ net = <<>>) /\ pc' = "exit"
-  /\ UNCHANGED <<nsent, net, fill, hp, job, tok, envHeld, drain, wireOut, werr, slot, hist, cgone>>
+  /\ UNCHANGED <<nsent, net, fill, hp, job, tok, envHeld, drain, wireOut, werr, cut, slot, hist, cgone, cstall>>
 
 (* tcpStream.stage of one framed reply r, literally:                        *)
 (*   need > len(drain)        -> flush what is staged, then write r alone   *)
@@ -191,21 +227,21 @@ Body ==                \* blocks for the rest of the body with the replies still
 (*   otherwise                -> stage r behind what is held                *)
 (* a failed flush returns the error with nothing staged (held = 0)          *)
 Stage(r) ==
-  IF werr THEN UNCHANGED <<drain, wireOut, werr>>
+  IF werr THEN UNCHANGED <<drain, wireOut, werr, cut>>
   ELSE IF Sz(r.sz, D) > D
     THEN IF FlushBeforeDirect
            THEN \E o \in FlushOutcomes(drain, wireOut, werr) :
                   /\ drain' = <<>>
-                  /\ IF o[2] THEN wireOut' = o[1] /\ werr' = TRUE
-                     ELSE \E d \in DirectOutcomes(r, o[1]) : wireOut' = d[1] /\ werr' = d[2]
+                  /\ IF o[3] THEN wireOut' = o[1] /\ werr' = o[2] /\ cut' = CutAt(TRUE, o[1])   \* stage returns the error: r is dropped
+                     ELSE \E d \in DirectOutcomes(r, o[1]) : wireOut' = d[1] /\ werr' = d[2] /\ cut' = CutAt(d[2], d[1])
            ELSE \* mutant: the huge reply overtakes whatever is staged
-                /\ \E d \in DirectOutcomes(r, wireOut) : wireOut' = d[1] /\ werr' = d[2]
+                /\ \E d \in DirectOutcomes(r, wireOut) : wireOut' = d[1] /\ werr' = d[2] /\ cut' = CutAt(d[2], d[1])
                 /\ UNCHANGED drain
     ELSE IF Held(drain, D) + Sz(r.sz, D) > D
       THEN \E o \in FlushOutcomes(drain, wireOut, werr) :
-             /\ wireOut' = o[1] /\ werr' = o[2]
-             /\ drain' = IF o[2] THEN <<>> ELSE <<r>>
-      ELSE drain' = Append(drain, r) /\ UNCHANGED <<wireOut, werr>>
+             /\ wireOut' = o[1] /\ werr' = o[2] /\ cut' = CutAt(o[3], o[1])
+             /\ drain' = IF o[3] THEN <<>> ELSE <<r>>                \* a failed flush: r is not staged
+      ELSE drain' = Append(drain, r) /\ UNCHANGED <<wireOut, werr, cut>>
 
 (* middleware/edns serveWire on the job-owned slot: every field but the     *)
 (* cookie pair is assigned from the request; cookieRaw/hasCookieRaw only    *)
@@ -222,10 +258,10 @@ Serve ==
      /\ hist' = Append(hist, f)
      /\ fill' = Tail(fill)
      /\ slot' = IF ThroughChain(f) THEN [slot EXCEPT ![job] = SlotLeft(f)] ELSE slot
-     /\ CASE f.kind = "panic" -> pc' = "exit" /\ UNCHANGED <<drain, wireOut, werr>>
-          [] f.kind = "silent" -> pc' = "top" /\ UNCHANGED <<drain, wireOut, werr>>
+     /\ CASE f.kind = "panic" -> pc' = "exit" /\ UNCHANGED <<drain, wireOut, werr, cut>>
+          [] f.kind = "silent" -> pc' = "top" /\ UNCHANGED <<drain, wireOut, werr, cut>>
           [] OTHER -> pc' = "top" /\ Stage([f EXCEPT !.ck = ReplyCk(f)])
-  /\ UNCHANGED <<nsent, net, hp, job, tok, envHeld, cgone>>
+  /\ UNCHANGED <<nsent, net, hp, job, tok, envHeld, cgone, cstall>>
 
 Exit ==                \* the deferred tail: slab back first, then the last flush, then close
   /\ pc = "exit"
@@ -233,7 +269,7 @@ Exit ==                \* the deferred tail: slab back first, then the last flus
   /\ job' = "none"
   /\ Flush
   /\ pc' = "closed"
-  /\ UNCHANGED <<nsent, net, fill, hp, envHeld, slot, hist, cgone>>
+  /\ UNCHANGED <<nsent, net, fill, hp, envHeld, slot, hist, cgone, cstall>>
 
 FrameChoice(k, z, o) ==
   /\ k \in Kinds
@@ -245,6 +281,7 @@ Conn == Top \/ Blocked \/ Prefix \/ ClassSwap \/ Acquire \/ Wait \/ Body \/ Serv
 Next ==
   \/ \E c \in Classes, k \in Kinds, z \in SizeClasses, o \in OptKinds :
        FrameChoice(k, z, o) /\ ClientWrite(c, k, z, o)
+  \/ ClientStall \/ ClientResume
   \/ ClientClose \/ Deliver(TRUE) \/ Deliver(FALSE) \/ DeliverHalfPrefix \/ DeliverRest
   \/ \E c \in Classes : EnvTake(c) \/ EnvGive(c)
   \/ Conn
@@ -258,6 +295,7 @@ Spec == Init /\ [][Next]_vars
 ScriptNext ==
   \/ \E z \in Sizes, o \in Opts : ClientWrite("small", "answer", z, o)
   \/ Deliver(TRUE)
+  \/ ClientStall \/ ClientResume
   \/ Conn
 ScriptSpec == Init /\ [][ScriptNext]_vars
 
@@ -269,7 +307,13 @@ Expected == Ids(SelectSeq(hist, LAMBDA f : Answerable(f.kind)))
 (* whatever their size classes                                              *)
 WholeInOrderOnePerQuery ==
   /\ IsPrefix(Ids(wireOut), Expected)
-  /\ ~werr => Ids(wireOut \o drain) = Expected
+  /\ cut = -1 => Ids(wireOut \o drain) = Expected
+
+(* a write that failed (peer gone, or the write bound with the client not    *)
+(* reading) may have left part of a frame on the wire: nothing more is put  *)
+(* on the wire behind it -- the client sees whole replies in query order    *)
+(* and then the end of the stream, never later replies behind a gap         *)
+StreamEndsAtFailedWrite == cut # -1 => Len(wireOut) = cut
 
 (* a reply's OPT options derive only from the request it answers: a COOKIE  *)
 (* appears iff that query carried one and is built from that query's own    *)
@@ -298,4 +342,5 @@ TypeOK ==
   /\ pc \in {"top", "blocked", "prefix", "class", "acquire", "wait", "body", "serve", "exit", "closed"}
   /\ job \in Classes \cup {"none"} /\ Held(drain, D) <= D
   /\ \A c \in Classes : slot[c] \in 0..EnvCk
+  /\ cstall \in BOOLEAN /\ cut \in -1..NF
 =============================================================================
